@@ -256,6 +256,121 @@ func checkLogsMergedNotReplaced(c *Ctx, rule string) {
 	}
 }
 
+// firstTouchReset: st extends the list <obj>.f, and that is still a replacement of what an earlier fetch
+// attached, because the first element this reply has for the object empties the list:
+//
+//	seen := map[K]bool{}            // made anew for the block
+//	for … { obj := block.Tx(k)
+//	        if !seen[k] { seen[k] = true; obj.f = nil }
+//	        obj.f = append(obj.f, …) }
+//
+// Read: a store of an empty list to the same object's field, in an arm taken when a look-up in a local set
+// misses, the set being extended in that arm under the same key; the key is what the object was asked for
+// with; the look-up comes before the extending store; the set is not older than the block.
+func firstTouchReset(st *ssa.Store, f *types.Var) bool {
+	fn := st.Parent()
+	fa, ok := st.Addr.(*ssa.FieldAddr)
+	if !ok {
+		return false
+	}
+	obj := stripConv(fa.X)
+	objCall, ok := obj.(*ssa.Call)
+	if !ok || len(objCall.Call.Args) < 2 {
+		return false
+	}
+	found := false
+	allInstrs(fn, func(in ssa.Instruction) {
+		lk, isLk := in.(*ssa.Lookup)
+		if !isLk || found {
+			return
+		}
+		mk, isMk := stripConv(lk.X).(*ssa.MakeMap)
+		if !isMk || mk.Parent() != fn {
+			return
+		}
+		// the key is what the object was looked up with
+		keyed := false
+		for _, a := range objCall.Call.Args[1:] {
+			if stripNum(a) == stripNum(lk.Index) || sameVar(stripNum(a), stripNum(lk.Index)) {
+				keyed = true
+			}
+		}
+		if !keyed {
+			return
+		}
+		var present ssa.Value = lk
+		if lk.CommaOk {
+			present = nil
+			for _, ref := range *lk.Referrers() {
+				if e, isE := ref.(*ssa.Extract); isE && e.Index == 1 {
+					present = e
+				}
+			}
+		}
+		if present == nil {
+			return
+		}
+		_, miss := boolEdges(present)
+		if len(miss) == 0 || !dominatesInstr(lk, st) {
+			return
+		}
+		// in the missing arm: the key joins the set and the list is emptied
+		joins, empties := false, false
+		allInstrs(fn, func(x ssa.Instruction) {
+			switch y := x.(type) {
+			case *ssa.MapUpdate:
+				if stripConv(y.Map) == ssa.Value(mk) && (stripNum(y.Key) == stripNum(lk.Index) || sameVar(stripNum(y.Key), stripNum(lk.Index))) && guardedByEdges(fn, y, miss) {
+					joins = true
+				}
+			case *ssa.Store:
+				fa2, isFA := y.Addr.(*ssa.FieldAddr)
+				if !isFA || y == st || stripConv(fa2.X) != obj {
+					return
+				}
+				if sf, _ := fieldOf(y.Addr); sf != f {
+					return
+				}
+				empty := isNilConst(y.Val)
+				if ms, isMs := stripConv(y.Val).(*ssa.MakeSlice); isMs {
+					if k, isK := constInt(ms.Len); isK && k == 0 {
+						empty = true
+					}
+				}
+				if empty && guardedByEdges(fn, y, miss) && dominatesInstr(lk, y) {
+					if hit, _ := reach(siteOf(y), isInstr(st), nil); hit {
+						empties = true
+					}
+				}
+			}
+		})
+		if !joins || !empties {
+			return
+		}
+		// the set is made for this block: it is not older than the block the object belongs to
+		var blockDef ssa.Instruction
+		if bi, isI := stripConv(objCall.Call.Args[0]).(ssa.Instruction); isI {
+			blockDef = bi
+		}
+		if blockDef != nil && blockDef.Parent() == fn {
+			lb, lm := loopHeaderOf(blockDef), loopHeaderOf(mk)
+			if lb != lm {
+				if lb == nil || lm == nil {
+					if lm == nil {
+						return // the set outlives the loop that picks the block
+					}
+				} else if !naturalLoop(lb)[lm] {
+					return
+				}
+			}
+			if lb == lm && lb != nil && !dominatesInstr(blockDef, mk) {
+				return
+			}
+		}
+		found = true
+	})
+	return found
+}
+
 // checkTracesReplaced: trace_block (like eth_getBlockReceipts) reports the
 // complete list for a block, and the block it is attached to may be a cached
 // one that an earlier fetch already filled.  Attaching must therefore be
@@ -300,6 +415,11 @@ func checkTracesReplaced(c *Ctx, rule string) {
 				if lf2, _ := loadedField(v); lf2 == f {
 					extends = true
 				}
+			}
+			if extends && firstTouchReset(st, f) {
+				c.OK(rule, fmt.Sprintf("%s/%s.%s-store#%d-replaces", strings.TrimPrefix(spec.fn, "(*Client)."), spec.typ, spec.field, n), st.Pos(),
+					"the list is extended one element at a time after the first element of this reply emptied it (a set of the transactions seen in this reply, made anew for the block, decides)")
+				return
 			}
 			c.Check(rule, fmt.Sprintf("%s/%s.%s-store#%d-replaces", strings.TrimPrefix(spec.fn, "(*Client)."), spec.typ, spec.field, n), st.Pos(), !extends,
 				"the complete list reported by the node replaces the transaction's list (idempotent on a cached block); it is not appended to what an earlier fetch attached")
